@@ -1422,7 +1422,10 @@ class Interp:
         from . import npmodel
 
         if isinstance(obj, np.ndarray):
-            return npmodel.san(obj[npmodel.fix_index(idx)], "getitem")
+            try:
+                return npmodel.san(obj[npmodel.fix_index(idx)], "getitem")
+            except IndexError as e:  # numpy's own indexing on concrete shapes / indices: exact semantics
+                raise InterpRaise(e, self.where())
         if isinstance(obj, (list, tuple, str, range)):
             if isinstance(idx, slice):
                 return obj[idx]
@@ -1458,7 +1461,10 @@ class Interp:
         from . import npmodel
 
         if isinstance(obj, np.ndarray):
-            npmodel.array_setitem(obj, npmodel.fix_index(idx), val)
+            try:
+                npmodel.array_setitem(obj, npmodel.fix_index(idx), val)
+            except IndexError as e:
+                raise InterpRaise(e, self.where())
             return
         if isinstance(obj, list):
             if isinstance(idx, (Fraction, Poly)):
